@@ -72,6 +72,8 @@ type caseIn struct {
 	bind     bool          // the query is made with Session.Bind (values from a binding callback) instead of Session.Query
 	retries  int           // > 0: a retry policy that retries a failed fetch on the same host up to this many times per page
 	eff      []reply       // script as the paging logic sees it: a failed fetch that is retried = "the same request again"
+	spec     int           // > 0: Idempotent(true) + SimpleSpeculativeExecution{NumAttempts: spec, TimeoutDelay: long}: the executor's
+	                       // speculative path runs (the extra attempts never fire); rows and requests must be those of the plain run
 	mutate   int           // > 0: what the caller does to the *Query handle right after Iter() returned (mutateHandle)
 	partner  *caseIn       // a second iterator made from the SAME *Query handle (re-bound) and read side by side with this one
 	second   bool          // this case is somebody's partner: it is run by its first half
@@ -324,6 +326,9 @@ func buildQuery(s *gocql.Session, in *caseIn) *gocql.Query {
 	}
 	if in.retries > 0 {
 		q = q.RetryPolicy(sameHostRetry{in.retries}).Idempotent(true)
+	}
+	if in.spec > 0 {
+		q = q.Idempotent(true).SetSpeculativeExecutionPolicy(&gocql.SimpleSpeculativeExecution{NumAttempts: in.spec, TimeoutDelay: 30 * time.Second})
 	}
 	q = q.PageSize(in.psize).Consistency(in.cons).Prefetch(float64(in.pfNum) / float64(in.pfDen))
 	if in.noskip {
@@ -804,6 +809,9 @@ func (g *gen) add(in *caseIn) *caseIn {
 	if in.sess == 2 && !in.ownSess { // protocol v2 has no default-timestamp flag (frame.go writeQueryParams: proto > 2)
 		in.tsflag, in.ts = false, 0
 	}
+	if in.mutate == 10 {
+		in.spec = 0 // Release while the executor's goroutine may still hold the query is another story
+	}
 	if in.ownSess || in.kind == "random-noreply" || in.kind == "empty-script" {
 		// (the dedicated stream retry-noreply does retry an unanswered request)
 		in.retries = 0 // a retried timeout / closed connection is the executor's business (C13), not paging's
@@ -866,6 +874,9 @@ func (g *gen) randomCfg(in *caseIn) {
 	in.cons = gocql.Consistency(r.Pick(int64(gocql.One), int64(gocql.Quorum), int64(gocql.LocalQuorum), int64(gocql.All), int64(gocql.Any)))
 	in.noskip = r.Chance(35)
 	in.bind = r.Chance(40)
+	if r.Chance(25) {
+		in.spec = 1 + r.Intn(2)
+	}
 	if r.Chance(20) {
 		in.retries = 1 + r.Intn(3)
 	}
@@ -963,7 +974,7 @@ func (g *gen) generate(scale int, search bool) {
 							t = reply{kind: rErr, code: errCodes[(np+rp+pfi+cons)%len(errCodes)]}
 						}
 						in := &caseIn{kind: "grid", consumer: cons, prepared: (np+rp+pfi+ti)%3 != 0, psize: rp + 1, cons: gocql.Quorum,
-							noskip: (np+cons+ti)%2 == 0, bind: (np+cons+pfi)%2 == 1, pfNum: prefetches[pfi][0], pfDen: prefetches[pfi][1], stop: -1, tsflag: true,
+							noskip: (np+cons+ti)%2 == 0, bind: (np+cons+pfi)%2 == 1, spec: (np + pfi + ti) % 3, pfNum: prefetches[pfi][0], pfDen: prefetches[pfi][1], stop: -1, tsflag: true,
 							sess: (np + rp + cons + ti) % g.nsess}
 						in.script = g.pages(counts, t)
 						g.add(in)
@@ -1235,8 +1246,15 @@ func (g *gen) generate(scale int, search bool) {
 
 // ---- main --------------------------------------------------------------------------------------
 
+// newSession: proto < 0 is the session whose ClusterConfig carries the query defaults that select executor paths
+// (DefaultIdempotence, a cluster-level retry policy that never retries), protocol v4
 func newSession(n *node.Net, proto int, logw io.Writer) (*gocql.Session, error) {
 	cfg := gocql.NewCluster("10.0.0.1")
+	if proto < 0 {
+		proto = 4
+		cfg.DefaultIdempotence = true
+		cfg.RetryPolicy = sameHostRetry{0}
+	}
 	cfg.Dialer = n.Dialer()
 	cfg.ProtoVersion = proto
 	cfg.Timeout = 700 * time.Millisecond
@@ -1290,7 +1308,7 @@ func main() {
 		return (r.Query != nil || r.Execute != nil) && (strings.Contains(r.Statement(), "c15_") || strings.Contains(r.Statement(), "c15h_"))
 	}, Do: handle})
 
-	protos := []int{4, 3, 2}
+	protos := []int{4, 3, 2, -1}
 	var sessions []*gocql.Session
 	for _, p := range protos {
 		s, err := newSession(net, p, logw)
@@ -1424,7 +1442,7 @@ func main() {
 		hist[fmt.Sprintf("consumer%d", in.consumer)]++
 		hist[fmt.Sprintf("requests=%d", min(len(out.reqs), 10))]++
 		input := map[string]interface{}{"case": in.id, "consumer": in.consumer, "stmt": in.stmt, "manual": in.manual, "prefetch": fmt.Sprintf("%d/%d", in.pfNum, in.pfDen),
-			"stop": in.stop, "bind": in.bind, "retries": in.retries, "script": describe(in.script), "rows_seen": len(out.rows), "err": out.errText, "requests": len(out.reqs)}
+			"stop": in.stop, "spec": in.spec, "bind": in.bind, "retries": in.retries, "script": describe(in.script), "rows_seen": len(out.rows), "err": out.errText, "requests": len(out.reqs)}
 		viol := func(kind, finding, detail string) { o.Violate(idx, kind, finding, detail, input) }
 		if out.panicked != "" {
 			viol("panic", "", out.panicked)
